@@ -66,6 +66,14 @@ def run(check, an: Analysis):
     check.rule('L3', 'nothing is scheduled into the past (kernel assertion never fires)')
     check.rule('forced-close', 'after GeneratorExit no path reaches another suspension')
     check.rule('typestate', 'the not-started predicate is sound on this interpreter')
+    check.rule('A', 'the kernel\'s own consistency assertions hold: Lock.__aexit__ asserts '
+                    'that the leaving activity owns the lock, which is what the Lock '
+                    'discipline (C09: taken only when free, handed over FIFO, released only '
+                    'by a designated owner) guarantees')
+    check.rule('X', 'every way out of a scope -- normal, failing, interrupted or force-closed '
+                    '-- runs the closing sequence once: its own signals are withdrawn and its '
+                    'children closed, so that nothing is delivered to an activity that left '
+                    'the scope (rule shared with C04)')
     wrapper = _scope.wrapper_callee(an)
 
     # ---- H ------------------------------------------------------------------
@@ -216,6 +224,16 @@ def run(check, an: Analysis):
     c01._check_schedule_preconditions(check, an)
     n = _scope.check_forced_close(check, an, only_modules=('usim._', 'usim.__'))
     _scope.check_typestate(check, an)
+    # ---- X --------------------------------------------------------------------
+    from ..report import SubCheck
+    from . import c04
+    c04.check_close_on_every_exit(SubCheck(check, 'X', 'Scope'), an, 'P',
+                                  _scope.scope_receivers(an))
+    check.floor('X', 30)
+    # ---- A --------------------------------------------------------------------
+    from . import c09
+    c09.run(SubCheck(check, 'A', 'Lock'), an)
+    check.floor('A', 30)
     check.stats.update(an.stats())
 
 
